@@ -24,13 +24,24 @@ func modSqrtBody() func(*engine.X) {
 		sweep bool
 	}
 	var ms []entry
-	for p := int64(2); p < 200; p++ {
+	pb := int64(200)
+	if engine.Thorough() {
+		pb = 2000
+	}
+	for p := int64(2); p < pb; p++ {
 		if bi(p).ProbablyPrime(20) {
 			ms = append(ms, entry{bi(p), true})
 		}
 	}
 	for _, c := range []int64{4, 6, 8, 9, 15, 21, 35, 49, 77, 561} {
 		ms = append(ms, entry{bi(c), true})
+	}
+	if engine.Thorough() { // every composite below 200 as well
+		for c := int64(10); c < 200; c++ {
+			if !bi(c).ProbablyPrime(20) && c != 15 && c != 21 && c != 35 && c != 49 && c != 77 {
+				ms = append(ms, entry{bi(c), true})
+			}
+		}
 	}
 	for _, p := range []*big.Int{p64a, new(big.Int).Sub(pow2(127), bi(1)), p25519, k256P, bls12381R, pallasP, new(big.Int).Sub(pow2(31), bi(1)), bi(257), bi(65537), bi(12289)} {
 		ms = append(ms, entry{p, false})
